@@ -21,12 +21,23 @@ def register(prop):
          assumptions=["reference retrieval order = tier by tier (fewest transmits), longest first, newest first, while the message plus overhead fits",
                       "retransmit limit = RetransmitMult*ceil(log10(n+1)) with n sampled at each retrieval"])
 
+    prop("C17", [dict(scn="C17", quick=6000, thorough=400000, wall_quick=90, wall_thorough=1200)],
+         "object mode: generated histories of NewKeyring/AddKey/UseKey/RemoveKey/GetKeys/GetPrimaryKey over a pool of valid (16/24/32), invalid-length, "
+         "duplicate, absent and primary keys on empty and populated rings, interleaved with decryptions that are parked by the scheduler between two keys "
+         "of the list they iterate while the ring changes; reference model = ordered list, primary first; every key list ever returned is snapshotted and "
+         "re-compared after every later operation; non-trivial = >=3 ops; distinct = distinct op sequences",
+         assumptions=["a decryption counts only if its key stays installed for its whole duration (RemoveKey of such a key is skipped by the executor)"])
+
 NOT_CLAIMED = {}
 
 SIM_NOTE = ("trusted base: Go runtime + testing/synctest fake clock, the harness (scheduler, SimNet, oracles) under /verif/sim; "
             "assumes the guarded yield sites are the relevant preemption points; seeded search, not proof")
 
 META = {
+ "C17": dict(
+    level_text="Keyring operation histories vs a sequential reference model plus scheduler-controlled interleaving of ring mutations with a decryption parked between two keys (the aliasing window), and (cluster part) rotation phases in PRNG node order with probe traffic between every pair at each intermediate step. Exploration fits: the failure needs a particular operation order / interleaving, not a particular value.",
+    design_ref="DESIGN.md §3 C17", level_note=SIM_NOTE,
+    technique="deterministic simulation: seeded keyring histories vs model with decrypt goroutines parked at a yield hook; seeded rotation interleavings in a simulated cluster"),
  "C10": dict(
     level_text="Generated operation histories against an executable sequential reference model (conservation, exactly-once Finished, size limit, retrieval order, NumQueued) with shrinking to a minimal failing history. The queue has no clock or concurrency of its own (fully mutex-serialised); the property quantifies over histories of a stateful object, which is this family's object-level use.",
     design_ref="DESIGN.md §3 C10", level_note="trusted base: the reference model in sim/scn_c10.go; single caller thread (queue methods are fully serialised by one mutex)",
